@@ -329,6 +329,27 @@ fn step_cost(v: Variant, s: &refcek::Steps) -> ExBudget {
     ExBudget { cpu: 100 + plain * unit_cpu + cc * cc_cpu, mem: 100 + plain * unit_mem + cc * cc_mem }
 }
 
+/// the repository's PlutusV3 cost-parameter vector with every machine-step parameter replaced by a distinct prime-ish
+/// price; returns the model and the (cpu, mem) price of constant, var, lambda, apply, delay, force, builtin, constr, case, startup
+fn priced_cost_model(v: Variant) -> Option<(CostModel, [(i64, i64); 10])> {
+    use uplc::machine::cost_model::ParamName;
+    let (_, mut vec3) = parse_cost_vectors();
+    if vec3.is_empty() || vec3.len() > ParamName::V3.len() { return None; }
+    let names = ["CekConstCost", "CekVarCost", "CekLamCost", "CekApplyCost", "CekDelayCost", "CekForceCost", "CekBuiltinCost", "CekConstrCost", "CekCaseCost", "CekStartupCost"];
+    let mut prices = [(0i64, 0i64); 10];
+    for (k, nm) in names.iter().enumerate() {
+        let (cpu, mem) = (1009 + 97 * k as i64, 11 + 3 * k as i64);
+        prices[k] = (cpu, mem);
+        for (suffix, val) in [("_exBudgetCPU", cpu), ("_exBudgetMemory", mem)] {
+            let want = format!("{nm}{suffix}");
+            let ix = ParamName::V3.iter().position(|p| format!("{p:?}") == want)?;
+            if ix >= vec3.len() { return None; }
+            vec3[ix] = val;
+        }
+    }
+    Some((uplc::machine::cost_model::initialize_cost_model_with_protocol(&language(v), v.pv, &vec3), prices))
+}
+
 fn check_budget_term(t: &T, v: Variant) -> Option<serde_json::Value> {
     let e = v.lang == 3 && v.pv >= 11;
     let expected = refcek::eval(t, e, 2_000);
@@ -348,6 +369,21 @@ fn check_budget_term(t: &T, v: Variant) -> Option<serde_json::Value> {
         let want = step_cost(v, &steps);
         if base.spent != want {
             return Some(fail("budget", "charged units differ from start-up + sum of step costs", input(1, &BIG), format!("{want:?}"), format!("{:?}", base.spent)));
+        }
+    }
+    // (1b) the same with a cost-parameter vector in which every machine step has its OWN price: each step kind is charged
+    // the parameter the ledger names after it (cekVarCost, cekCaseCost, ...), start-up once
+    if ok && steps.builtin_calls == 0 && base.result.is_ok() && v.lang == 3 {
+        if let Some((cm, prices)) = priced_cost_model(v) {
+            let r = run_real(to_real(t), v, Some(cm), BIG, 1);
+            if r.result.is_ok() {
+                let counts = [steps.constant, steps.var, steps.lambda, steps.apply, steps.delay, steps.force, steps.builtin, steps.constr, steps.case];
+                let mut want = ExBudget { cpu: prices[9].0, mem: prices[9].1 };
+                for (k, c) in counts.iter().enumerate() { want.cpu += *c as i64 * prices[k].0; want.mem += *c as i64 * prices[k].1; }
+                if r.spent != want {
+                    return Some(fail("budget", "with distinct prices per machine step, the charged units differ from start-up + sum over steps of that step kind's own parameter", input(1, &BIG), format!("{want:?}"), format!("{:?}", r.spent)));
+                }
+            }
         }
     }
     // (2) the figure does not depend on batching
@@ -647,12 +683,16 @@ fn mode_builtins(_seed: u64, limit: usize) -> Vec<serde_json::Value> {
             }
             expect_builtin(&mut fails, F::LengthOfByteString, sem, &[Value::byte_string(x.clone())], format!("#{}", hex(x)), Some(Value::integer(BigInt::from(x.len()))));
             // sliceByteString start len bs  = take len (drop start bs), negative arguments clamp to 0
-            for s in [-1i64, 0, 1, 2, 300] {
-                for l in [-1i64, 0, 1, 2, 300] {
-                    let st = s.max(0) as usize;
-                    let ln = l.max(0) as usize;
-                    let want: Vec<u8> = x.iter().skip(st).take(ln).cloned().collect();
-                    expect_builtin(&mut fails, F::SliceByteString, sem, &[Value::integer(s.into()), Value::integer(l.into()), Value::byte_string(x.clone())], format!("{s} {l} #{}", hex(x)), Some(Value::byte_string(want)));
+            let big = |k: u32, d: i32| (BigInt::from(1) << k) + d;
+            let slice_args: Vec<BigInt> = vec![(-1).into(), 0.into(), 1.into(), 2.into(), 300.into(), big(63, -1), big(63, 0), big(64, -1), big(64, 0), big(64, 1), big(130, 0), -big(64, 0)];
+            for s in &slice_args {
+                for l in &slice_args {
+                    // clamp in the integers, before any conversion to a machine word
+                    let st = if *s < zero { 0usize } else if *s > BigInt::from(x.len()) { x.len() } else { usize::try_from(s).unwrap() };
+                    let avail = x.len() - st;
+                    let ln = if *l < zero { 0usize } else if *l > BigInt::from(avail) { avail } else { usize::try_from(l).unwrap() };
+                    let want: Vec<u8> = x[st..st + ln].to_vec();
+                    expect_builtin(&mut fails, F::SliceByteString, sem, &[Value::integer(s.clone()), Value::integer(l.clone()), Value::byte_string(x.clone())], format!("{s} {l} #{}", hex(x)), Some(Value::byte_string(want)));
                 }
             }
         }
@@ -775,6 +815,9 @@ fn flat_terms() -> Vec<Term<DeBruijn>> {
         extra.push(Term::Constr { tag, fields: vec![Term::Constant(Rc::new(Constant::Integer(1.into()))), Term::Error] });
         extra.push(Term::Case { constr: Rc::new(Term::Constr { tag, fields: vec![] }), branches: vec![Term::Error, Term::Constant(Rc::new(Constant::Unit))] });
     }
+    // scripts whose flat form needs a 2-byte and a 4-byte CBOR length header
+    extra.push(Term::Constant(Rc::new(Constant::ByteString(vec![7u8; 300]))));
+    extra.push(Term::Constant(Rc::new(Constant::ByteString((0..70_000u32).map(|i| i as u8).collect()))));
     let mut out: Vec<Term<DeBruijn>> = extra;
     for c in constant_pool() {
         out.push(Term::Constant(Rc::new(c)));
@@ -1447,7 +1490,8 @@ fn to_named(t: &T, binders: &mut Vec<(String, isize)>, counter: &mut isize, sche
                 let (tx, u) = binders[binders.len() - *i].clone();
                 Term::Var(nm(&tx, u))
             } else {
-                Term::Var(nm("free", free_unique))
+                // free_unique >= 900: the free variable carries the TEXT of the binders (and a unique none of them has)
+                if free_unique >= 900 { Term::Var(nm(if scheme == 1 { "v0" } else { "x" }, free_unique)) } else { Term::Var(nm("free", free_unique)) }
             }
         }
         T::Lam(b) => {
@@ -1532,7 +1576,7 @@ fn mode_interner(seed: u64, limit: usize) -> Vec<serde_json::Value> {
         let ts = terms(size, 0, true, &mut memo);
         for t in ts.iter() {
             for scheme in 0..4u8 {
-                for fu in [0isize, 1, 2] {
+                for fu in [0isize, 1, 2, 977] {
                     n += 1;
                     if let Some(f) = check_interner(t, scheme, fu) {
                         fails.push(f);
@@ -1550,10 +1594,10 @@ fn mode_interner(seed: u64, limit: usize) -> Vec<serde_json::Value> {
         let open = rng.below(2) == 0;
         let t = random_term(&mut rng, size, 0, open);
         let sch = rng.below(4) as u8;
-        let fu = rng.below(6) as isize;
+        let fu = if rng.below(4) == 0 { 977 } else { rng.below(6) as isize };
         if let Some(f) = check_interner(&t, sch, fu) { fails.push(f); }
     }
-    println!("BOUNDS mode=interner exhaustive: open and closed terms of size<=5 x 4 naming schemes (all binders (x,0); distinct texts; same text distinct uniques; (x,k)) x free-variable uniques 0,1,2 ({n} cases); random: {m}; seed {seed}");
+    println!("BOUNDS mode=interner exhaustive: open and closed terms of size<=5 x 4 naming schemes (all binders (x,0); distinct texts; same text distinct uniques; (x,k)) x free variables named (free,0..2) or with a binder's text and a foreign unique ({n} cases); random: {m}; seed {seed}");
     fails
 }
 
